@@ -1,6 +1,8 @@
 package main
 
 import (
+	"crypto/sha256"
+	"go/printer"
 	"encoding/json"
 	"flag"
 	"fmt"
@@ -48,6 +50,7 @@ func cmdCheck(args []string) int {
 	noev := fs.Bool("noevidence", false, "do not write evidence")
 	timeout := fs.Int("timeout", 0, "per-obligation timeout seconds")
 	obsel := fs.String("ob", "", "only obligations whose name contains this string")
+	hashes := fs.Bool("hashes", false, "print the body hash of every trusted in-repository function in the closure")
 	covers := fs.Bool("covers", false, "diagnostic: report for every return whether it is reachable under the assumptions")
 	noinc := fs.Bool("noinc", false, "skip the incremental pre-pass")
 	noreplay := fs.Bool("noreplay", false, "do not search for and replay counterexamples")
@@ -125,6 +128,22 @@ func cmdCheck(args []string) int {
 	var under []string
 	for _, name := range targets {
 		ct := eng.cs.ByTarget[name]
+		if ct != nil && ct.Trusted && (ct.Kind == "func" || ct.Kind == "closure") {
+			// a trusted contract on a function of this repository is pinned to the body it was written for
+			if fn := eng.funcs[name]; fn != nil {
+				h := bodyHash(eng, fn)
+				want := ct.Flags["bodyhash"]
+				sn := eng.shortName(name)
+				if *hashes {
+					fmt.Printf("BODYHASH %s %s\n", sn, h)
+				}
+				if want != "" && h != "" && want != h {
+					fmt.Printf("UNBOUND %s: trusted contract was written for a different function body (bodyhash %s, now %s)\n", sn, want, h)
+					fvs = append(fvs, &funcVC{Name: sn, Items: []Item{{Kind: itOblig, Ob: &Oblig{Name: sn + "/binding#0", Kind: "binding", Guard: "true", Formula: "false", Desc: "the body of a function under a trusted (unverified) contract changed: the trust no longer applies", Fn: sn}}}})
+					under = append(under, sn)
+				}
+			}
+		}
 		if ct == nil || ct.Trusted {
 			continue
 		}
@@ -243,6 +262,21 @@ func callsAny(fn *ssa.Function, want map[string]bool) bool {
 		}
 	}
 	return false
+}
+
+// bodyHash: a hash of the printed source of fn (formatting-insensitive; comments excluded).
+func bodyHash(eng *Engine, fn *ssa.Function) string {
+	syn := fn.Syntax()
+	if syn == nil {
+		return ""
+	}
+	var sb strings.Builder
+	cfg := printer.Config{Mode: printer.RawFormat}
+	if err := cfg.Fprint(&sb, eng.fset, syn); err != nil {
+		return ""
+	}
+	sum := sha256.Sum256([]byte(strings.Join(strings.Fields(sb.String()), " ")))
+	return fmt.Sprintf("%x", sum[:6])
 }
 
 func (e *Engine) closure(roots []string) []string {
